@@ -67,11 +67,36 @@ def comp_key(c):
     return sb.concretise_atoms(c).key()
 
 
+def find_child(node, comp, w=None):
+    """Directory lookup.  Names containing digest atoms are compared semantically (ideal hash):
+    two names may be equal although they are built from different terms."""
+    k = comp_key(comp)
+    ent = node.children.get(k)
+    if ent is not None or w is None:
+        return ent
+    if not comp.has_kind(sb.Atom):
+        # a concrete name can still equal an atom-bearing sibling
+        if not any(name.has_kind(sb.Atom) for name, _ in node.children.values()):
+            return None
+    for name, child in list(node.children.values()):
+        if not (name.has_kind(sb.Atom) or comp.has_kind(sb.Atom)):
+            continue
+        e = sb.content_eq(name, comp, w)
+        if e is True:
+            return (name, child)
+        if e is False:
+            continue
+        if w.branch(e, "dirent-eq"):
+            return (name, child)
+    return None
+
+
 class VFS:
-    def __init__(self):
+    def __init__(self, world=None):
         self.root = Inode("dir")
         self.cwd = SBytes(b"/")
         self.tmp_counter = 0
+        self.w = world
 
     # -- path walking
     def _abs_comps(self, path):
@@ -108,12 +133,13 @@ class VFS:
             if c.is_concrete() and c.concrete() == b".":
                 i += 1
                 continue
-            ent = node.children.get(comp_key(c))
+            ent = find_child(node, c, self.w)
             if ent is None:
                 if last:
                     return node, c, None
                 raise FsErr("NotFound")
             child = ent[1]
+            c = ent[0]
             if child.kind == "symlink" and (not last or follow_last):
                 # resolve relative to the directory containing the link
                 tgt = child.target
@@ -220,7 +246,8 @@ class Env:
 
     def __init__(self, world, vfs=None):
         self.w = world
-        self.vfs = vfs or VFS()
+        self.vfs = vfs or VFS(world)
+        self.vfs.w = world
         self.trace = []
         self.n_actions = 0
         self.crash = None        # CrashController or None
@@ -254,7 +281,7 @@ class Env:
         return None
 
     def intern_digest(self, algo, content):
-        c = sb.concretise_atoms(content)
+        c = sb.canon(sb.concretise_atoms(content), self.w)
         k = (algo, c.key())
         d = self.interned_digests.get(k)
         if d is None:
@@ -308,11 +335,11 @@ def op_mkdir_p(I, path):
     for k, c in enumerate(comps):
         if node.kind != "dir":
             raise FsErr("NotADirectory")
-        ent = node.children.get(sb.concretise_atoms(c).key())
+        ent = find_child(node, c, env.w)
         if ent is None:
             fail_if_injected(env.act("mkdir", path_from(True, comps[:k + 1]), mutating=True))
             # racing creator (another process) may have made it meanwhile
-            ent = node.children.get(sb.concretise_atoms(c).key())
+            ent = find_child(node, c, env.w)
             if ent is None:
                 d = Inode("dir")
                 node.children[sb.concretise_atoms(c).key()] = (c, d)
